@@ -265,6 +265,22 @@ func rulesC09(c *Ctx) {
 		}
 		c.Check(okInc, "C09.nonce", fnAuthPay+":single-increment", c.P.Pos(fn.Pos()), "exactly one store Nonce = Nonce+1", "the nonce is not advanced by exactly one in exactly one place")
 		c.OnAllSuccessExits("C09.nonce", fn, inc, CallsTo(fn, "SetAccount", "consensus/cometbft/apps/staking/state.(*MutableState).SetAccount", ""), "the advanced nonce is persisted on every success exit")
+		// ... and in block delivery every success exit has advanced it (an increment that is skipped under some condition —
+		// a saturating "AdvanceNonce" helper, for instance — lets the same signed bytes authenticate again)
+		{
+			cut := NewCut().AddInstr(inc.Ins...)
+			cut.AddEdges(HeldEdges(fn, `^consensus/cometbft/api\.\(\*Context\)\.IsSimulation\(param:ctx\)$`)...)
+			cut.AddEdges(HeldEdges(fn, `^consensus/cometbft/api\.\(\*Context\)\.IsCheckOnly\(param:ctx\)$`)...)
+			for _, r := range Returns(fn) {
+				cut.AddEdges(phiNonNilEdges(r)...)
+			}
+			hit := Reach(fn, nil, nil, anyOf(SuccessReturns(fn)), cut)
+			site := c.P.Pos(fn.Pos())
+			if hit != nil {
+				site = c.P.InstrPos(hit)
+			}
+			c.Check(!inc.Empty() && hit == nil, "C09.nonce", fnAuthPay+":every delivery success exit has advanced the nonce", site, "outside CheckTx/simulation no success return is reachable without the nonce store", "AuthenticateAndPayFees can succeed in block delivery without advancing the signer's nonce: the same signed transaction authenticates again")
+		}
 		// account fetched for the signer's address
 		acc := CallsTo(fn, "state.Account", "consensus/cometbft/apps/staking/state.(*ImmutableState).Account", "")
 		for _, call := range acc.Calls() {
@@ -430,7 +446,7 @@ func rulesC09(c *Ctx) {
 		} else {
 			// the panic on mismatch: a Panic instruction guarded by chainContext != "" && raw != chainContext
 			hasPanicGuard := false
-			for _, b := range fn.Blocks {
+			for _, b := range blocksIP(fn) {
 				for _, in := range b.Instrs {
 					if p, ok := in.(*ssa.Panic); ok && strings.Contains(vstr(p.X), "already set") {
 						hasPanicGuard = true
